@@ -6,6 +6,11 @@
 //@ fns: OsuGradualDifficulty::next (Iterator::next)
 //@ bound: unbounded: every number of hit objects N, every position idx
 //@ clause: for ALL N: pre: invariant. post: Some iff idx < N; then idx' = idx+1, the attributes count exactly one more object unless this is the first value (whose object `new` counted up front); else the calculator is unchanged; invariant preserved; diff_objects[idx-1] in bounds; no overflow
+//@ obl: id=U12.osu.nth.verus fn=OsuGradualDifficulty::nth props=C15,C02,C05 tier=quick kind=proof twin=yes pair=U12.osu.protocol.n2
+//@ fns: OsuGradualDifficulty::nth (Iterator::nth)
+//@ bound: unbounded: every number of hit objects, every position, every n (incl. usize::MAX)
+//@ clause: for ALL N and n: pre: invariant. post: Some iff n < remaining; exactly min(n+1, remaining) values are consumed; the attributes count exactly one more object per consumed object other than the first (so nth(n) counts the same objects as n+1 calls of next()); invariant preserved; indices in bounds; no overflow
+//@ assume: R10: slice.iter().skip(S).take(T) visits the elements S, S+1, ... while in range, at most T of them; R11: Option::filter with a constant predicate; `cmp::min` on usize is a local verified definition
 //@ obl: id=U12.osu.len.verus fn=OsuGradualDifficulty::len props=C15,C05 tier=quick kind=proof twin=yes pair=U12.osu.protocol.n1
 //@ fns: OsuGradualDifficulty::len (ExactSizeIterator::len)
 //@ bound: unbounded
@@ -59,6 +64,17 @@ impl Flashlight {
     #[verifier::external_body]
     fn process<'a>(&mut self, curr: &OsuDifficultyObject<'a>, objects: &Vec<OsuDifficultyObject<'a>>) { unimplemented!() }
 }
+impl OsuSkills {
+    #[verifier::external_body]
+    fn process<'a>(&mut self, curr: &OsuDifficultyObject<'a>, objects: &Vec<OsuDifficultyObject<'a>>) { unimplemented!() }
+}
+/// std::cmp::min on usize (verified local definition; the extracted code calls `cmp::min`)
+pub mod cmp {
+    use vstd::prelude::*;
+    pub fn min(a: usize, b: usize) -> (r: usize)
+        ensures r == if a <= b { a } else { b }
+    { if a <= b { a } else { b } }
+}
 impl DifficultyValues {
     #[verifier::external_body]
     fn eval(attrs: &mut OsuDifficultyAttributes, mods: &GameMods, skills: &OsuSkills)
@@ -96,6 +112,36 @@ impl OsuGradualDifficulty {
                 && counted(final(self).attrs) == counted(old(self).attrs) + (if old(self).idx == 0 { 0nat } else { 1nat })
                 && counted(r.unwrap()) == counted(final(self).attrs),
             r.is_none() ==> final(self).idx == old(self).idx && counted(final(self).attrs) == counted(old(self).attrs),
+*/
+
+/*@extract fn file=src/osu/difficulty/gradual.rs impl=Iterator for=OsuGradualDifficulty name=nth ret=r subst=Self::Item=>OsuDifficultyAttributes
+@spec
+        requires old(self).inv()
+        ensures
+            final(self).inv(),
+            final(self).n() == old(self).n(),
+            r.is_some() <==> n < old(self).remaining(),
+            final(self).idx == old(self).idx + (if n < old(self).remaining() { n + 1 } else { old(self).remaining() }),
+            // every consumed object other than the very first one (counted by `new`) is counted once
+            counted(final(self).attrs) + (if old(self).idx == 0 && final(self).idx > 0 { 1nat } else { 0nat })
+                == counted(old(self).attrs) + (final(self).idx - old(self).idx),
+            r.is_some() ==> counted(r.unwrap()) == counted(final(self).attrs),
+@loop 1
+            invariant
+                self.inv(),
+                self.n() == old(self).n(),
+                self.diff_objects@.len() == old(self).diff_objects@.len(),
+                old(self).idx <= self.idx,
+                __skip_iter_k + 1 == self.idx || __skip_iter_take == 0,
+                self.idx + (__skip_iter_take - __skip_iter_c) == old(self).idx + take0,
+                __skip_iter_c <= __skip_iter_take,
+                take0 == 0 || old(self).idx + take0 <= old(self).n() - 1,
+                take0 as int == (if n < old(self).remaining() - 1 { n as int } else if old(self).remaining() == 0 { 0 } else { old(self).remaining() - 1 }),
+                counted(self.attrs) + (if old(self).idx == 0 && self.idx > 0 { 1nat } else { 0nat })
+                    == counted(old(self).attrs) + (self.idx - old(self).idx),
+            decreases __skip_iter_take - __skip_iter_c
+@before 1 `if self.idx == 0 && take > 0 {`
+        let ghost take0 = take;
 */
 
 /*@extract fn file=src/osu/difficulty/gradual.rs impl=ExactSizeIterator for=OsuGradualDifficulty name=len ret=r
